@@ -210,6 +210,8 @@ class Resolver:
             if isinstance(base, ast.Call) and isinstance(base.func, ast.Name) and base.func.id == "super":
                 return mk([BUILTIN])
             # method on a duck-typed parameter: unique attribute name in the package
+            if isinstance(base, ast.Name) and base.id in f.params and self._param_is_external_object(f, base.id):
+                return mk([EXTERNAL_USER])
             if isinstance(base, ast.Name) and base.id in f.params:
                 owners = self.attr_owner.get(fn.attr, [])
                 if len(owners) == 1 and not owners[0].is_property:
@@ -224,6 +226,42 @@ class Resolver:
             if tg:
                 return mk(tg)
         return mk([UNKNOWN])
+
+    def _param_is_external_object(self, f: FuncInfo, pname: str) -> bool:
+        """A private function / method whose parameter receives, at every call site in the package, a local of the caller that is bound only to
+        the result of calling something imported from outside the package (`instream = BytesIO(segment)`; `self._step(instream)`): calls on it
+        stay outside the package."""
+        cache = self.__dict__.setdefault("_ext_param_cache", {})
+        key = (f.qualname, pname)
+        if key in cache:
+            return cache[key]
+        cache[key] = False
+        if not f.name.startswith("_") or f.name.startswith("__") or pname not in f.params:
+            return False
+        pos = f.params.index(pname) - (1 if f.cls and not f.is_static else 0)
+        sites = 0
+        for g in self.repo.all_funcs():
+            for c in ast.walk(g.node):
+                if not isinstance(c, ast.Call):
+                    continue
+                fn = c.func
+                hit = (isinstance(fn, ast.Attribute) and fn.attr == f.name and isinstance(fn.value, ast.Name) and g.cls == f.cls and g.module == f.module and g.params and fn.value.id == g.params[0]) or \
+                      (isinstance(fn, ast.Name) and fn.id == f.name and f.cls is None and g.module == f.module)
+                if not hit:
+                    continue
+                sites += 1
+                arg = c.args[pos] if 0 <= pos < len(c.args) and not any(isinstance(a, ast.Starred) for a in c.args) else next((k.value for k in c.keywords if k.arg == pname), None)
+                if not isinstance(arg, ast.Name):
+                    return False
+                binds = [n.value for n in ast.walk(g.node) if isinstance(n, ast.Assign) and len(n.targets) == 1 and isinstance(n.targets[0], ast.Name) and n.targets[0].id == arg.id]
+                others = [n for n in ast.walk(g.node) if isinstance(n, ast.Name) and n.id == arg.id and isinstance(n.ctx, (ast.Store, ast.Del))]
+                if not binds or len(others) != len(binds) or arg.id in g.params:
+                    return False
+                for b in binds:
+                    if not (isinstance(b, ast.Call) and isinstance(b.func, ast.Name) and b.func.id not in self.modnames[g.module] and b.func.id not in g.params):
+                        return False
+        cache[key] = sites > 0
+        return cache[key]
 
     def _local_alias(self, f: FuncInfo, name: str, selfname, clsq):
         """Targets of a local name every binding of which is `name = self.<method>`; None when it is bound in any other way."""
